@@ -310,6 +310,20 @@ func C09_Rollback() {
 	h.doRollback()
 	h.audit()
 	c07Coherent(h, "c09:after-rollback")
+	// the rolled-back working tree is independent of the last saved one: a further write leaves
+	// Hash() (last committed) alone, and a second rollback discards it again
+	{
+		c := vChoice("write2", 2*h.p.n)
+		if c < h.p.n {
+			h.doSet(c)
+		} else {
+			h.doRemove(c - h.p.n)
+		}
+		h.audit()
+		h.doRollback()
+		h.audit()
+		c07Coherent(h, "c09:after-second-rollback")
+	}
 	// and the next commit behaves as if the discarded writes never happened
 	h.doSet(vChoice("key", h.p.n))
 	h.doCommit()
